@@ -1,0 +1,338 @@
+//! Verification hooks.
+//!
+//! Compiled only with `--cfg curve25519_dalek_verif`.  Not part of the public
+//! API: thin, additive accessors that let an external monitor drive
+//! `pub(crate)` items (field arithmetic on raw limbs, internal point
+//! coordinates, scalar recodings, constants, backend dispatch) and observe
+//! their results.  Nothing here changes what an unguarded build computes.
+
+#![allow(missing_docs, non_snake_case, clippy::unwrap_used)]
+
+use subtle::{Choice, ConditionallyNegatable, ConditionallySelectable, ConstantTimeEq};
+
+use crate::edwards::EdwardsPoint;
+use crate::field::FieldElement;
+use crate::montgomery::MontgomeryPoint;
+use crate::ristretto::RistrettoPoint;
+use crate::scalar::Scalar;
+
+// ------------------------------------------------------------------------
+// Field elements on raw limbs
+// ------------------------------------------------------------------------
+
+/// Number of limbs of the serial field element of this build.
+#[cfg(curve25519_dalek_bits = "64")]
+pub const FE_LIMBS: usize = 5;
+#[cfg(curve25519_dalek_bits = "32")]
+pub const FE_LIMBS: usize = 10;
+
+/// Short name of the serial field implementation of this build.
+pub fn field_impl() -> &'static str {
+    #[cfg(all(curve25519_dalek_backend = "fiat", curve25519_dalek_bits = "64"))]
+    return "fiat64";
+    #[cfg(all(curve25519_dalek_backend = "fiat", curve25519_dalek_bits = "32"))]
+    return "fiat32";
+    #[cfg(all(not(curve25519_dalek_backend = "fiat"), curve25519_dalek_bits = "64"))]
+    return "u64";
+    #[cfg(all(not(curve25519_dalek_backend = "fiat"), curve25519_dalek_bits = "32"))]
+    return "u32";
+}
+
+/// Transparent wrapper around the crate-private `FieldElement`.
+#[derive(Copy, Clone)]
+#[repr(transparent)]
+pub struct Fe(pub(crate) FieldElement);
+
+impl Fe {
+    /// Build from raw limbs (no reduction, no checks).  `l.len()` must be `FE_LIMBS`.
+    pub fn from_limbs(l: &[u64]) -> Fe {
+        assert_eq!(l.len(), FE_LIMBS);
+        #[cfg(curve25519_dalek_bits = "64")]
+        {
+            Fe(FieldElement::from_limbs([l[0], l[1], l[2], l[3], l[4]]))
+        }
+        #[cfg(curve25519_dalek_bits = "32")]
+        {
+            let mut a = [0u32; 10];
+            for i in 0..10 {
+                a[i] = l[i] as u32;
+            }
+            Fe(FieldElement::from_limbs(a))
+        }
+    }
+
+    /// Raw limbs.
+    pub fn limbs(&self) -> [u64; FE_LIMBS] {
+        let mut out = [0u64; FE_LIMBS];
+        #[cfg(not(curve25519_dalek_backend = "fiat"))]
+        for i in 0..FE_LIMBS {
+            out[i] = self.0 .0[i] as u64;
+        }
+        #[cfg(curve25519_dalek_backend = "fiat")]
+        for i in 0..FE_LIMBS {
+            out[i] = (self.0 .0).0[i] as u64;
+        }
+        out
+    }
+
+    pub fn from_bytes(b: &[u8; 32]) -> Fe {
+        Fe(FieldElement::from_bytes(b))
+    }
+    pub fn as_bytes(&self) -> [u8; 32] {
+        self.0.as_bytes()
+    }
+    pub fn zero() -> Fe {
+        Fe(FieldElement::ZERO)
+    }
+    pub fn one() -> Fe {
+        Fe(FieldElement::ONE)
+    }
+    pub fn minus_one() -> Fe {
+        Fe(FieldElement::MINUS_ONE)
+    }
+    pub fn add(&self, o: &Fe) -> Fe {
+        Fe(&self.0 + &o.0)
+    }
+    pub fn sub(&self, o: &Fe) -> Fe {
+        Fe(&self.0 - &o.0)
+    }
+    pub fn mul(&self, o: &Fe) -> Fe {
+        Fe(&self.0 * &o.0)
+    }
+    pub fn add_assign(&mut self, o: &Fe) {
+        self.0 += &o.0;
+    }
+    pub fn sub_assign(&mut self, o: &Fe) {
+        self.0 -= &o.0;
+    }
+    pub fn mul_assign(&mut self, o: &Fe) {
+        self.0 *= &o.0;
+    }
+    pub fn neg(&self) -> Fe {
+        Fe(-&self.0)
+    }
+    /// In-place negation (`FieldElement::negate`; the fiat types only have `Neg`).
+    pub fn negate(&mut self) {
+        #[cfg(not(curve25519_dalek_backend = "fiat"))]
+        self.0.negate();
+        #[cfg(curve25519_dalek_backend = "fiat")]
+        {
+            self.0 = -&self.0;
+        }
+    }
+    pub fn square(&self) -> Fe {
+        Fe(self.0.square())
+    }
+    pub fn square2(&self) -> Fe {
+        Fe(self.0.square2())
+    }
+    pub fn pow2k(&self, k: u32) -> Fe {
+        Fe(self.0.pow2k(k))
+    }
+    pub fn invert(&self) -> Fe {
+        Fe(self.0.invert())
+    }
+    pub fn invsqrt(&self) -> (bool, Fe) {
+        let (c, r) = self.0.invsqrt();
+        (c.into(), Fe(r))
+    }
+    pub fn sqrt_ratio_i(u: &Fe, v: &Fe) -> (bool, Fe) {
+        let (c, r) = FieldElement::sqrt_ratio_i(&u.0, &v.0);
+        (c.into(), Fe(r))
+    }
+    #[cfg(feature = "alloc")]
+    pub fn batch_invert(v: &mut [Fe]) {
+        let mut tmp: alloc::vec::Vec<FieldElement> = v.iter().map(|f| f.0).collect();
+        FieldElement::batch_invert(&mut tmp);
+        for (d, s) in v.iter_mut().zip(tmp.iter()) {
+            d.0 = *s;
+        }
+    }
+    pub fn is_negative(&self) -> bool {
+        self.0.is_negative().into()
+    }
+    pub fn is_zero(&self) -> bool {
+        self.0.is_zero().into()
+    }
+    pub fn ct_eq(&self, o: &Fe) -> bool {
+        self.0.ct_eq(&o.0).into()
+    }
+    pub fn eq(&self, o: &Fe) -> bool {
+        self.0 == o.0
+    }
+    pub fn conditional_select(a: &Fe, b: &Fe, c: bool) -> Fe {
+        Fe(FieldElement::conditional_select(
+            &a.0,
+            &b.0,
+            Choice::from(c as u8),
+        ))
+    }
+    pub fn conditional_assign(&mut self, o: &Fe, c: bool) {
+        self.0.conditional_assign(&o.0, Choice::from(c as u8));
+    }
+    pub fn conditional_swap(a: &mut Fe, b: &mut Fe, c: bool) {
+        FieldElement::conditional_swap(&mut a.0, &mut b.0, Choice::from(c as u8));
+    }
+    pub fn conditional_negate(&mut self, c: bool) {
+        self.0.conditional_negate(Choice::from(c as u8));
+    }
+}
+
+// ------------------------------------------------------------------------
+// Points
+// ------------------------------------------------------------------------
+
+/// Internal extended coordinates (X, Y, Z, T) of an Edwards point.
+pub fn edwards_coords(p: &EdwardsPoint) -> [Fe; 4] {
+    [Fe(p.X), Fe(p.Y), Fe(p.Z), Fe(p.T)]
+}
+
+/// Build an `EdwardsPoint` from arbitrary coordinates (no validity check).
+pub fn edwards_from_coords(c: &[Fe; 4]) -> EdwardsPoint {
+    EdwardsPoint {
+        X: c[0].0,
+        Y: c[1].0,
+        Z: c[2].0,
+        T: c[3].0,
+    }
+}
+
+/// `ValidityCheck::is_valid` of the Edwards point (curve equation and XY = ZT).
+pub fn edwards_is_valid(p: &EdwardsPoint) -> bool {
+    use crate::traits::ValidityCheck;
+    p.is_valid()
+}
+
+pub fn edwards_double(p: &EdwardsPoint) -> EdwardsPoint {
+    p.double()
+}
+
+pub fn edwards_mul_by_pow_2(p: &EdwardsPoint, k: u32) -> EdwardsPoint {
+    p.mul_by_pow_2(k)
+}
+
+pub fn ristretto_from_edwards(p: EdwardsPoint) -> RistrettoPoint {
+    RistrettoPoint(p)
+}
+
+pub fn ristretto_inner(p: &RistrettoPoint) -> EdwardsPoint {
+    p.0
+}
+
+pub fn elligator_ristretto_flavor(r0: &Fe) -> RistrettoPoint {
+    RistrettoPoint::elligator_ristretto_flavor(&r0.0)
+}
+
+pub fn montgomery_elligator_encode(r0: &Fe) -> MontgomeryPoint {
+    crate::montgomery::elligator_encode(&r0.0)
+}
+
+/// The serial-backend group formulas on internal curve models, on raw
+/// coordinates.  `op` selects the formula; coordinates are passed and returned
+/// as flat lists of field elements.
+///
+/// * 0: `EdwardsPoint + ProjectiveNiels(Q)`  -> Completed -> Extended   (in: P[4], Q[4] as extended)
+/// * 1: `EdwardsPoint - ProjectiveNiels(Q)`  -> Completed -> Extended
+/// * 2: `EdwardsPoint + AffineNiels(Q)`      -> Completed -> Extended
+/// * 3: `EdwardsPoint - AffineNiels(Q)`      -> Completed -> Extended
+/// * 4: `ProjectivePoint(P).double()`        -> Completed -> Extended   (in: P[4])
+/// * 5: `as_projective_niels(P)`             (out: Y+X, Y-X, Z, T2d)
+/// * 6: `as_affine_niels(P)`                 (out: y+x, y-x, xy2d, 0)
+/// * 7: `-ProjectiveNiels(P)` round trip `P + (-(-Q))`
+/// * 8: Completed -> Projective               (out: X, Y, Z, 0)
+pub fn edwards_formula(op: u32, p: &[Fe; 4], q: &[Fe; 4]) -> [Fe; 4] {
+    let P = edwards_from_coords(p);
+    let Q = edwards_from_coords(q);
+    let ext = |e: EdwardsPoint| edwards_coords(&e);
+    match op {
+        0 => ext((&P + &Q.as_projective_niels()).as_extended()),
+        1 => ext((&P - &Q.as_projective_niels()).as_extended()),
+        2 => ext((&P + &Q.as_affine_niels()).as_extended()),
+        3 => ext((&P - &Q.as_affine_niels()).as_extended()),
+        4 => ext(P.as_projective().double().as_extended()),
+        5 => {
+            let n = P.as_projective_niels();
+            [Fe(n.Y_plus_X), Fe(n.Y_minus_X), Fe(n.Z), Fe(n.T2d)]
+        }
+        6 => {
+            let n = P.as_affine_niels();
+            [Fe(n.y_plus_x), Fe(n.y_minus_x), Fe(n.xy2d), Fe::zero()]
+        }
+        7 => {
+            let n = -&(-&Q.as_projective_niels());
+            ext((&P + &n).as_extended())
+        }
+        8 => {
+            let c = &P + &Q.as_projective_niels();
+            let pr = c.as_projective();
+            [Fe(pr.X), Fe(pr.Y), Fe(pr.Z), Fe::zero()]
+        }
+        _ => panic!("edwards_formula: unknown op"),
+    }
+}
+
+// ------------------------------------------------------------------------
+// Scalars
+// ------------------------------------------------------------------------
+
+/// A `Scalar` holding the given integer below 2^255 without reduction
+/// (what the deprecated `Scalar::from_bits` of `legacy_compatibility` builds).
+pub fn scalar_from_bits_unchecked(mut bytes: [u8; 32]) -> Scalar {
+    bytes[31] &= 0b0111_1111;
+    Scalar { bytes }
+}
+
+pub fn scalar_as_radix_16(s: &Scalar) -> [i8; 64] {
+    s.as_radix_16()
+}
+
+#[cfg(any(feature = "alloc", feature = "precomputed-tables"))]
+pub fn scalar_as_radix_2w(s: &Scalar, w: usize) -> [i8; 64] {
+    s.as_radix_2w(w)
+}
+
+#[cfg(feature = "alloc")]
+pub fn scalar_radix_2w_size_hint(w: usize) -> usize {
+    Scalar::to_radix_2w_size_hint(w)
+}
+
+pub fn scalar_non_adjacent_form(s: &Scalar, w: usize) -> [i8; 256] {
+    s.non_adjacent_form(w)
+}
+
+// ------------------------------------------------------------------------
+// Backend dispatch
+// ------------------------------------------------------------------------
+
+/// 0 = no override (CPUID decides), 1 = Serial, 2 = AVX2, 3 = AVX-512 IFMA.
+pub(crate) static FORCED_BACKEND: core::sync::atomic::AtomicU8 =
+    core::sync::atomic::AtomicU8::new(0);
+
+/// Override the run-time dispatcher.  The caller is responsible for only
+/// forcing an implementation the CPU supports and this build contains
+/// (see [`compiled_backends`]).
+pub fn force_backend(which: u8) {
+    FORCED_BACKEND.store(which, core::sync::atomic::Ordering::SeqCst);
+}
+
+/// Which scalar-multiplication implementation the dispatcher picks right now
+/// (1 = Serial, 2 = AVX2, 3 = AVX-512 IFMA).
+pub fn selected_backend() -> u8 {
+    crate::backend::verif_selected_backend()
+}
+
+/// Bit mask of implementations compiled into this build (bit 1 = Serial,
+/// bit 2 = AVX2, bit 3 = IFMA).
+pub fn compiled_backends() -> u8 {
+    #[allow(unused_mut)]
+    let mut m = 1u8 << 1;
+    #[cfg(curve25519_dalek_backend = "simd")]
+    {
+        m |= 1 << 2;
+    }
+    #[cfg(all(curve25519_dalek_backend = "unstable_avx512", nightly))]
+    {
+        m |= 1 << 3;
+    }
+    m
+}
